@@ -24,6 +24,10 @@ typedef struct {
 	unsigned char text[2 * VF_MAXTOK]; int text_len;
 	/* candidate list for yyreject(): sorted by (-total, rule) */
 	int ncand; short cand_rule[VF_MAXCAND], cand_total[VF_MAXCAND];
+	int cand_idx, rejecting;
+	int sv_bol, sv_lineno, sv_seg;       /* to undo a commit when the action rejects */
+	/* start-condition stack */
+	int stack[256]; int sp;
 } vf_ref;
 
 static void vf_ref_init(vf_ref *R, const unsigned char *in, int len, int sc)
@@ -39,6 +43,7 @@ static void vf_ref_init(vf_ref *R, const unsigned char *in, int len, int sc)
 		memcpy(R->buf + R->head, in, (size_t)len);
 	R->sc = sc; R->bol = 1; R->lineno = 1; R->more_len = 0;
 	R->rule = 0; R->total = 0; R->nsplit = 0; R->text_len = 0; R->ncand = 0;
+	R->cand_idx = 0; R->rejecting = 0; R->sp = 0;
 }
 
 /* append bytes of a further source (yywrap continuing, new yyin) */
@@ -114,6 +119,7 @@ static int vf_ref_match(vf_ref *R)
 		}
 		i = e;
 	}
+	R->cand_idx = 0;
 	if (best < 0) {           /* default rule: one character */
 		R->rule = VF_NRULES + 1;
 		R->total = 1;
@@ -124,6 +130,22 @@ static int vf_ref_match(vf_ref *R)
 	R->total = best;
 	vf_ref_splits(R, bestrule, s, best, R->split, &R->nsplit);
 	return 1;
+}
+
+/* After yyreject(): the next-best (rule, length) pair at the same position;
+ * when every rule has rejected, the default rule takes one character. */
+static void vf_ref_next_candidate(vf_ref *R)
+{
+	const unsigned char *s = R->buf + R->head;
+	R->cand_idx++;
+	R->rejecting = 0;
+	if (R->cand_idx >= R->ncand) {
+		R->rule = VF_NRULES + 1; R->total = 1; R->split[0] = 1; R->nsplit = 1;
+		return;
+	}
+	R->rule = R->cand_rule[R->cand_idx];
+	R->total = R->cand_total[R->cand_idx];
+	vf_ref_splits(R, R->rule, s, R->total, R->split, &R->nsplit);
 }
 
 static int vf_ref_split_ok(const vf_ref *R, int leng)
@@ -138,6 +160,7 @@ static int vf_ref_split_ok(const vf_ref *R, int leng)
 static void vf_ref_commit(vf_ref *R, int leng)
 {
 	int i;
+	R->sv_bol = R->bol; R->sv_lineno = R->lineno; R->sv_seg = leng;
 	memcpy(R->text, R->more, (size_t)R->more_len);
 	memcpy(R->text + R->more_len, R->buf + R->head, (size_t)leng);
 	R->text_len = R->more_len + leng;
@@ -179,6 +202,15 @@ static int vf_ref_input(vf_ref *R)
 	if (c == '\n') R->lineno++;
 	R->bol = (c == '\n');
 	return c;
+}
+
+/* yyreject(): the token is given back, the next-best alternative is tried */
+static void vf_ref_reject(vf_ref *R)
+{
+	R->head -= R->sv_seg;
+	R->bol = R->sv_bol;
+	R->lineno = R->sv_lineno;
+	R->rejecting = 1;
 }
 
 /* yymore(): the next token is appended to the current yytext */
